@@ -2,7 +2,13 @@
 // input line:  <flag> <type> <msg> <fmt> <cat> <file> <fn> <line> <na> [<key> <value>]...
 //   strings are hex UTF-16 units (4 digits each); "-" = empty string; "0" = null pointer / not formatted
 //   value: n | t | f | i<qlonglong> | I<int> | d<double holding an integer> | s<hex16> | a<count> v... | o<count> (k v)...
-// output line: <hex of time().toString(Qt::ISODateWithMs)> <threadId> <hex of format()>
+//   optional multi-step suffix: "|" then steps on the SAME message object
+//     S <n> (k v)*n   setAttributes({...})      U <n> (k v)*n   updateAttributes({...})
+//     A <k> <v>       setAttribute(k, v)        R <k>           removeAttribute(k)
+//     F <flag>        format again with a JsonFormatter(flag): one more record in the output
+// argv[1] = "latin1": QTextCodec::setCodecForLocale(ISO-8859-1) first (the formatter's QString result
+//   must not depend on the locale codec)
+// output line: <hex of time().toString(Qt::ISODateWithMs)> <threadId> <hex of format()> [<hex of later records>...]
 #ifdef VERIF_HEADER_ONLY
 #include "qtlogger.h"
 #else
@@ -10,6 +16,7 @@
 #endif
 #include <iostream>
 #include <sstream>
+#include <QTextCodec>
 using namespace QtLogger;
 static QString unhex(const std::string &h)
 {
@@ -38,8 +45,16 @@ static QVariant val(std::istringstream &is)
     if (k == 'o') { int n = std::stoi(r); QVariantMap m; for (int i = 0; i < n; i++) { std::string kk; is >> kk; auto v = val(is); m.insert(unhex(kk), v); } return m; }
     return QVariant();
 }
-int main()
+static QVariantHash hash_of(std::istringstream &is)
 {
+    int n; is >> n; QVariantHash h;
+    for (int i = 0; i < n; i++) { std::string k; is >> k; QVariant v = val(is); h.insert(unhex(k), v); }
+    return h;
+}
+int main(int argc, char **argv)
+{
+    if (argc > 1 && std::string(argv[1]) == "latin1")
+        QTextCodec::setCodecForLocale(QTextCodec::codecForName("ISO-8859-1"));
     std::string line;
     {   // warm-up: another formatter instance in the other mode has already been used in this process
         // (a formatter must not share its mode with other instances)
@@ -59,6 +74,17 @@ int main()
         if (fmt != "0") m.setFormattedMessage(unhex(fmt));
         for (int i = 0; i < na; i++) { std::string k; is >> k; QVariant v = val(is); m.setAttribute(unhex(k), v); }
         JsonFormatter jf(flag != 0);
-        std::cout << hex(m.time().toString(Qt::ISODateWithMs)) << " " << m.threadId() << " " << hex(jf.format(m)) << "\n";
+        std::cout << hex(m.time().toString(Qt::ISODateWithMs)) << " " << m.threadId() << " " << hex(jf.format(m));
+        std::string tok;
+        if (is >> tok && tok == "|") {
+            while (is >> tok) {
+                if (tok == "S") m.setAttributes(hash_of(is));
+                else if (tok == "U") m.updateAttributes(hash_of(is));
+                else if (tok == "A") { std::string k; is >> k; QVariant v = val(is); m.setAttribute(unhex(k), v); }
+                else if (tok == "R") { std::string k; is >> k; m.removeAttribute(unhex(k)); }
+                else if (tok == "F") { int f2; is >> f2; JsonFormatter again(f2 != 0); std::cout << " " << hex(again.format(m)); }
+            }
+        }
+        std::cout << "\n";
     }
 }
